@@ -87,6 +87,11 @@ def run(run):
                 # datagrams from several senders; several reads queued before the asyncio handler task runs
                 SH.add_delivery(r, case)
                 run.count('histories_with_delivery_pattern')
+            if i % 6 == 4 and framing != 'tls':
+                # one hosted unit has a failing datastore: its requests are answered with exception 04 (03 for quantity errors),
+                # whatever exception class the datastore raises and whatever ignore_missing_slaves says; a broadcast stays unanswered
+                SH.add_failing(r, case, i // 6)
+                run.count('histories_with_failing_datastore')
             ok = check(run, case)
             nreq = sum(len(rd) for rd in case['reads'])
             run.case(h64(repr(case)), nreq >= 2,
